@@ -84,14 +84,27 @@ def static_rules(repo: Repo, rep: Report) -> None:
     rep.rule("EXC-6", "int() of a multi-character slice of the input only after character-class validation")
     funcs = decode_functions(repo)
     lz = L.Linearizer()
-    for mod, q, fn in funcs:
+    base_set = {(m.rel, q) for m, q, _f in funcs}
+    # helpers of the same module that a decode-path function hands (a piece of) the input to: analysed too, under the
+    # facts that hold at every call site (computed entry contract)
+    calls: Dict[Tuple[str, str], List[Tuple[G.Facts, ast.Call, Set[str]]]] = {}
+    summaries_of: Dict[str, Any] = {}
+    work: List[Tuple[Module, str, ast.FunctionDef, Optional[G.Facts], Optional[Set[str]]]] = [(m, q, f, None, None) for m, q, f in funcs]
+    seen_helpers: Set[Tuple[str, str]] = set()
+    rounds = 0
+    while work:
+      batch, work = work, []
+      rounds += 1
+      for mod, q, fn, entry_in, inputs_in in batch:
         rep.saw(mod.rel, q)
         params = [a.arg for a in fn.args.args]
-        entry = G.Facts()
-        inputs = {p for p in params if p in INPUT_NAMES}
-        if "idx" in params and "data" in params:
+        entry = entry_in or G.Facts()
+        inputs = set(inputs_in) if inputs_in is not None else {p for p in params if p in INPUT_NAMES}
+        if entry_in is None and "idx" in params and "data" in params:
             e = ast.parse("0 <= idx <= len(data)", mode="eval").body
             entry = entry.assume(e, True)
+        if mod.rel not in summaries_of:
+            summaries_of[mod.rel] = G.summarise_module(mod.funcs)
         wrappers = int_wrappers(mod)
         local_dicts: Dict[str, Set[Any]] = {}
         for n in ast.walk(fn):
@@ -157,6 +170,9 @@ def static_rules(repo: Repo, rep: Report) -> None:
             # ---- EXC-6 -------------------------------------------------------------------------
             if isinstance(node, ast.Call):
                 name = dotted(node.func)
+                if isinstance(node.func, ast.Name) and name in mod.funcs and (mod.rel, name) not in base_set and name != q \
+                        and any(isinstance(a, ast.Name) and a.id in derived for a in node.args) and not node.keywords:
+                    calls.setdefault((mod.rel, name), []).append((facts, node, set(derived)))
                 if name == "int" or name in wrappers:
                     if node.args:
                         a = node.args[0]
@@ -198,7 +214,7 @@ def static_rules(repo: Repo, rep: Report) -> None:
                                 f"`assert {txt}` on the decode path is not implied by the guards before it: malformed input raises AssertionError "
                                 "instead of returning None / raising ValueError", st.lineno)
 
-        w = G.Walker(on_expr=on_expr, on_stmt=on_stmt)
+        w = G.Walker(on_expr=on_expr, on_stmt=on_stmt, summaries=summaries_of[mod.rel])
         w.run_function(fn, entry)
         # ---- EXC-4 ---------------------------------------------------------------------------
         for n in walk_no_nested(fn):
@@ -209,6 +225,38 @@ def static_rules(repo: Repo, rep: Report) -> None:
                 break
         else:
             rep.ok("EXC-4", f"{mod.rel}::{q} is not directly recursive", nontrivial=False)
+      # schedule newly discovered helpers with their computed entry contract
+      if rounds <= 3:
+        for (rel, name), sites in list(calls.items()):
+            if (rel, name) in seen_helpers:
+                continue
+            seen_helpers.add((rel, name))
+            hmod = repo.mod(rel)
+            hfn = hmod.funcs[name]
+            hp = [a.arg for a in hfn.args.args]
+            if any(len(c.args) != len(hp) or any(isinstance(a, ast.Starred) for a in c.args) for _f, c, _d in sites):
+                continue
+            h_inputs = {hp[j] for j in range(len(hp)) if all(isinstance(c.args[j], ast.Name) and c.args[j].id in d for _f, c, d in sites)}
+            entry = G.Facts()
+            for j, pj in enumerate(hp):
+                forms = [lz.lin(c.args[j]) for _f, c, _d in sites]
+                if any(f is None for f in forms) or pj in h_inputs:
+                    continue
+                if all(G.Prover(f).ge0(fm) for (f, _c, _d), fm in zip(sites, forms)):
+                    entry = entry.assume(ast.parse(f"{pj} >= 0", mode="eval").body, True)
+                for k, pk in enumerate(hp):
+                    if pk not in h_inputs:
+                        continue
+                    okay = True
+                    for (f, c, _d), fm in zip(sites, forms):
+                        nm = c.args[k].id  # type: ignore[attr-defined]
+                        L.SYMINFO[f"len({nm})"] = ("len", nm)
+                        if not G.Prover(f).ge0(L.add(L.sym(f"len({nm})"), fm, -1)):
+                            okay = False
+                    if okay:
+                        entry = entry.assume(ast.parse(f"{pj} <= len({pk})", mode="eval").body, True)
+            rep.info(f"EXC: helper {rel}::{name} analysed under the contract computed from its {len(sites)} call site(s): inputs {sorted(h_inputs)}")
+            work.append((hmod, name, hfn, entry, h_inputs))
     rep.floor("EXC-1", 12)
 
 
